@@ -1286,6 +1286,7 @@ func (schema *Schema) visitNotOperation(settings *schemaValidationSettings, valu
 				Value:                 value,
 				Schema:                schema,
 				SchemaField:           "not",
+				Reason:                `Doesn't match schema "not"`,
 				customizeMessageError: settings.customizeMessageError,
 			}
 		}
